@@ -109,6 +109,14 @@ def make_case(idx):
     if not horiz and not rtl and R.random() < 0.06 and len(lines) > rows:
         # insert mode on the bottom row: help key (^A), then Enter scrolls the window from within the insert
         prog = prog[:R.randint(0, 5)] + [R.choice(['LAX\x01\nY\x1b', 'Go\x01a\nb\x1b', 'LoZ\x01\n\nW\x1b', 'LA\x01\x01\nq\x1b'])] + prog[5:8]
+    tags = None
+    if not horiz and not rtl and R.random() < 0.07 and lines:
+        # tag jumps (^] on a word, ^T back, :ta): into the other file, within the file, and through entries whose pattern no longer
+        # matches anything (the jump then stops on line 1 of the file it already switched to)
+        lines[0] = 'foo bar hello baz World abc'
+        tags = ''.join('%s\t%s\t%s\n' % t for t in [('World', 'f2', '3'), ('abc', fname, '$'), ('bar', 'f2', '/no such line/'), ('baz', fname, '2'), ('foo', 'f2', '/its line/'), ('hello', fname, '/zzzz/')])
+        jump = lambda: R.choice(['1G', '1Gw', '1G2w', '1G3w', '1G4w', '1G5w']) + '\x1d'
+        prog = prog[:R.randint(0, 3)] + [jump()] + prog[3:5] + [R.choice(['\x14', '\x14', ':po\n', jump(), ':ta bar\n', ':ta hello\n', ':ta foo\n'])] + prog[5:7] + [R.choice(['\x14', jump(), ':e #\n', '\x14\x14'])] + prog[7:9]
     raw = R.random() < 0.12 or rtl
     if horiz and R.random() < 0.7:
         # (the per-command normalisation is itself a motion and re-centres the view: most of this family runs without it and ends in a jump)
@@ -117,7 +125,7 @@ def make_case(idx):
     if raw and not horiz and not rtl and R.random() < 0.5:
         # commands that move the cursor without redrawing anything
         prog.append(R.choice(['yb', 'y0', 'yB', 'y^', 'yFo', 'yTa', 'y2h', 'yk', 'y{', 'ma', '\x07']))
-    return {'lines': lines, 'rows': rows, 'cols': cols, 'pre': pre, 'prog': prog, 'idx': idx, 'kind': kind, 'raw': raw, 'horiz': horiz, 'fname': fname, 'rtl': rtl}
+    return {'lines': lines, 'rows': rows, 'cols': cols, 'pre': pre, 'prog': prog, 'idx': idx, 'kind': kind, 'raw': raw, 'horiz': horiz, 'fname': fname, 'rtl': rtl, 'tags': tags}
 
 
 def cells_of(line, W):
@@ -200,6 +208,8 @@ def run_case(args):
             keys += k.encode() + b'\x1b' + NORM + b'\x0c\x0c'
             prefixes.append(keys)
     files = {case['fname']: gen.buf_bytes(case['lines']), 'f2': b'second file\nits line 2\n\tthird\n'}
+    if case.get('tags'):
+        files['tags'] = case['tags'].encode()
     r, d = common.run_vi(vi, keys, files=files, args=[case['fname']], timeout=90, lines=case['rows'], cols=case['cols'])
     common.rmcase(d)
     wit = {'index': idx, 'rows': case['rows'], 'cols': case['cols'], 'lines': case['lines'], 'program': case['prog'], 'pre': case['pre']}
